@@ -118,6 +118,17 @@ func (e *Env) DCSPhiEdge(b *ssa.BasicBlock, k int) []ir.NLit {
 	return ir.NormalizeAll(ff.Expand(ff.DCSPhiEdge(b, k)))
 }
 
+// DCSEdgeTo is the expanded, normalised condition set of the CFG edge p→s.
+func (e *Env) DCSEdgeTo(p, s *ssa.BasicBlock) []ir.NLit {
+	ff := e.Facts(p.Parent())
+	for i, x := range p.Succs {
+		if x == s {
+			return ir.NormalizeAll(ff.Expand(ff.DCSEdge(p, i)))
+		}
+	}
+	return nil
+}
+
 func (e *Env) RenderN(ls []ir.NLit) []string {
 	var out []string
 	for _, l := range ls {
